@@ -86,6 +86,12 @@ instance : Wt Float where
   ofJson j := do let q ← ratOfJson j; pure (Float.ofInt q.num / Float.ofNat q.den)
   toJson f := Json.mkObj [("bits", .num ⟨f.toBits.toNat, 0⟩)]
 
+instance : Wt LangW where
+  ofJson j := match j with
+    | .arr a => pure (LangW.canon (a.toList.filterMap fun x => match x with | .str s => some s | _ => none))
+    | _ => throw "bad language weight"
+  toJson a := .arr (a.l.map Json.str).toArray
+
 instance {K : Type} [Wt K] : Wt (Expc K) where
   ofJson
     | .arr #[a, b] => do pure ⟨← Wt.ofJson a, ← Wt.ofJson b⟩
